@@ -20,7 +20,7 @@ func registerC16() {
 		Rule: "PRNG streams rich in unknown messages, unknown fields of known messages and developer fields, in five variants (intact, truncated at a PRNG offset, file CRC " +
 			"corrupted, data record on an undefined local type, a file type without container after a file_id with unlisted fields); each decoded under all 8 combinations of {logger, unknown fields, unknown messages} (options given in varying order, one of them sometimes twice) through a counting reader " +
 			"and a logger that formats every argument; decoded content, error text and bytes consumed must be identical across the 8 runs, the lists absent when their option is " +
-			"off, sorted, and equal to the model's counts (failing streams: at least the completed records, at most completed + the record in flight); family many: files with 5000 / 9000 / all (> 65000) distinct unknown message numbers, and with 6000 / 20000 distinct (known message, unlisted field number) pairs, one or two records each, and files in which one unknown field / one unknown message occurs in 70000 records: the lists must name every one of them with its exact count; family chains: 2-3 such streams concatenated and decoded by DecodeChained under the 8 option sets: every File of the chain must carry exactly its own file's lists; non-trivial: the model " +
+			"off, sorted, and equal to the model's counts (failing streams: at least the completed records, at most completed + the record in flight); family many: files with 5000 / 9000 / all (> 65000) distinct unknown message numbers, and with 6000 / 20000 distinct (known message, unlisted field number) pairs, one or two records each, and files in which one unknown field / one unknown message occurs in 70000 records: the lists must name every one of them with its exact count; family chains: 2-3 such streams concatenated and decoded by DecodeChained under the 8 option sets: every File of the chain must carry exactly its own file's lists; the logger is passed as values of several dynamic kinds (pointer, struct, func, array, *log.Logger); non-trivial: the model " +
 			"expects at least one unknown message and one unknown field; distinct by stream digest",
 		Assume: []string{
 			"definitions do not list the same unknown field number twice (the count would then be per occurrence, which the statement does not define)",
